@@ -103,6 +103,16 @@ class Driver:
                     L.append('  int iR_%s_%s = -1; { %sOptions o; o.%s = 1.0; %s rd(o); int n = 0; for (int i = 0; i < (int)%s::size; ++i)'
                              ' { if (rd.data(i, 0) == 1.0) { iR_%s_%s = i; ++n; } } if (n != 1) std::printf("E probe\\n"); }'
                              % (T, r, T, r, T, T, T, r))
+        # published layout: row of every named field, and the SensorId order
+        for n in d.state:
+            L.append('  std::printf("L state %s %%d\\n", iS_%s);' % (n, n))
+        for n in d.control:
+            L.append('  std::printf("L control %s %%d\\n", iU_%s);' % (n, n))
+        if self.kind == "ekf":
+            for key in sorted(d.sensors):
+                L.append('  std::printf("L sensor %s %%d\\n", (int)SensorId::%s);' % (key, key.upper()))
+                for r in sorted(d.sensors[key]):
+                    L.append('  std::printf("L reading:%s %s %%d\\n", iR_%s_%s);' % (key, r, self.typename(key), r))
         if self.has_cal:
             L.append('  CalibrationOptions calo;')
             for c in d.calib:
@@ -282,6 +292,8 @@ def parse_driver_output(text):
             flags[(int(t[1]), t[2])] = int(t[3])
         elif t[0] == "E":
             errors.append(" ".join(t[1:]))
+        elif t[0] == "L":
+            vals.setdefault((-1, "layout:" + t[1]), {})[t[2]] = int(t[3])
     return vals, flags, errors
 
 
